@@ -25,6 +25,7 @@ def run(chk):
     chk.add_neg(mc("MC_Frame", "NEG_C13.cfg", expect_fail=True))
     chk.add_mc(mc("MC_Crc", "MC_Crc.cfg", workers=2))
     t = record("sfx", chk.path("sfx.ndjson"), n=3000 if q else 40000, seed=chk.seed)
+    hang_violation(chk, t, "MessageFrame::new / get_message")
     r = tv("Trace_Frame", "Trace_Frame.cfg", t, shards=10, tag="C13")
     chk.add_tv("sfx", r)
     report_rejects(chk, r, sig,
